@@ -317,9 +317,9 @@ theorem DepthRange.locals_noInt (r : DepthRange R) (hw : r.WellFormed) (ctx : Ct
 
 /-! ### ridges -/
 
-theorem relevantRidge_ok (ridges : List (List (P2 R))) (hne : ∀ rd ∈ ridges, 0 < rd.length) (check : P2 R)
+theorem relevantRidge_ok (ridges : List (List (P2 R))) (hne : ∀ rd ∈ ridges, 0 < rd.length) (check other : P2 R)
     (fuel i : Nat) (hi : i < ridges.length) :
-    ∃ k, relevantRidge ridges check fuel i = .ok k ∧ k < ridges.length := by
+    ∃ k, relevantRidge ridges check other fuel i = .ok k ∧ k < ridges.length := by
   induction fuel generalizing i with
   | zero => exact ⟨i, rfl, hi⟩
   | succ fuel ih =>
@@ -331,9 +331,7 @@ theorem relevantRidge_ok (ridges : List (List (P2 R))) (hne : ∀ rd ∈ ridges,
       have h2 : (ridges[i]).length - 1 < (ridges[i]).length := by omega
       simp only [idx_eq_ok_of_lt ridges _ h, idx_eq_ok_of_lt ridges _ hi, idx_eq_ok_of_lt _ _ h0, idx_eq_ok_of_lt _ _ h1,
         idx_eq_ok_of_lt (ridges[i]) ((ridges[i]).length - 1) h2, bind, Except.bind]
-      split
-      · exact ⟨i, rfl, hi⟩
-      · exact ih (i + 1) h
+      split <;> split <;> first | exact ⟨i, rfl, hi⟩ | exact ih (i + 1) h
     · simp only [h, if_false]; exact ⟨i, rfl, hi⟩
 
 theorem ridgeSegments_noInt (sph : Bool) (nat0 : P3 R) (check other : P2 R) (ridge : List (P2 R)) (vels : List R)
@@ -352,14 +350,14 @@ theorem ridgeDistanceAndSpreading_noInt (sph : Bool) (r : RidgeSpec R) (hw : r.W
   obtain ⟨hpos, hne, hlen, hvs⟩ := hw
   unfold ridgeDistanceAndSpreading
   refine NoInt.bind (idx_noInt _ _ hpos) (fun r0 _ => ?_)
-  refine NoInt.bind (x := (if r0.length > 1 then relevantRidge r.ridges _ r.ridges.length 0 else .ok 0)) ?_ (fun rel hrel => ?_)
+  refine NoInt.bind (x := (if r0.length > 1 then relevantRidge r.ridges _ _ r.ridges.length 0 else .ok 0)) ?_ (fun rel hrel => ?_)
   · split
-    · obtain ⟨k, hk, _⟩ := relevantRidge_ok r.ridges hne (surfacePoint sph nat0) r.ridges.length 0 hpos
+    · obtain ⟨k, hk, _⟩ := relevantRidge_ok r.ridges hne (surfacePoint sph nat0) _ r.ridges.length 0 hpos
       rw [hk]; exact NoInt.ok _
     · exact NoInt.ok _
   have hrel : rel < r.ridges.length := by
     split at hrel
-    · obtain ⟨k, hk, hk2⟩ := relevantRidge_ok r.ridges hne (surfacePoint sph nat0) r.ridges.length 0 hpos
+    · obtain ⟨k, hk, hk2⟩ := relevantRidge_ok r.ridges hne (surfacePoint sph nat0) _ r.ridges.length 0 hpos
       rw [hk] at hrel; cases hrel; exact hk2
     · cases hrel; exact hpos
   refine NoInt.bind (idx_noInt _ _ hrel) (fun ridge hridge => ?_)
@@ -405,14 +403,14 @@ theorem ridgeDistanceAndSpreading_noInt_general (sph : Bool) (r : RidgeSpec R) (
   have hvl0 : 0 < sv0'.length := (List.getElem?_eq_some_iff.1 hv0).1
   unfold ridgeDistanceAndSpreading
   refine NoInt.bind (idx_noInt _ _ hpos) (fun r0 _ => ?_)
-  refine NoInt.bind (x := (if r0.length > 1 then relevantRidge r.ridges _ r.ridges.length 0 else .ok 0)) ?_ (fun rel hrel => ?_)
+  refine NoInt.bind (x := (if r0.length > 1 then relevantRidge r.ridges _ _ r.ridges.length 0 else .ok 0)) ?_ (fun rel hrel => ?_)
   · split
-    · obtain ⟨k, hk, _⟩ := relevantRidge_ok r.ridges hne (surfacePoint sph nat0) r.ridges.length 0 hpos
+    · obtain ⟨k, hk, _⟩ := relevantRidge_ok r.ridges hne (surfacePoint sph nat0) _ r.ridges.length 0 hpos
       rw [hk]; exact NoInt.ok _
     · exact NoInt.ok _
   have hrel : rel < r.ridges.length := by
     split at hrel
-    · obtain ⟨k, hk, hk2⟩ := relevantRidge_ok r.ridges hne (surfacePoint sph nat0) r.ridges.length 0 hpos
+    · obtain ⟨k, hk, hk2⟩ := relevantRidge_ok r.ridges hne (surfacePoint sph nat0) _ r.ridges.length 0 hpos
       rw [hk] at hrel; cases hrel; exact hk2
     · cases hrel; exact hpos
   refine NoInt.bind (idx_noInt _ _ hrel) (fun ridge hridge => ?_)
@@ -674,11 +672,103 @@ theorem NoInt.ite {α : Type} {c : Prop} [Decidable c] {x y : Except Err α} (hx
     NoInt (if c then x else y) := by
   split <;> assumption
 
-theorem MassConserving.profile_noInt (m : MassConserving R) (hs : m.applySpline = false) (a b c d e f g : R) :
+/-! #### the monotone spline (`Utilities::interpolation`): its table is indexed in range -/
+
+theorem splineSamples_length (m : MassConserving R) (a b c d e f g : R) (fuel i : Nat) :
+    (splineSamples m a b c d e f g fuel i).length = fuel := by
+  induction fuel generalizing i with
+  | zero => rfl
+  | succ fuel ih => simp only [splineSamples, List.length_cons, ih]
+
+/-- the first loop of `set_points`: one tangent for each interior point -/
+theorem splineTangents_ok (y : List R) (fuel i : Nat) (hf : y.length ≤ i + 2 + fuel) :
+    ∃ cs, splineTangents y fuel i = .ok cs ∧ cs.length = y.length - 2 - i := by
+  induction fuel generalizing i with
+  | zero => exact ⟨[], rfl, by simp only [List.length_nil]; omega⟩
+  | succ fuel ih =>
+    unfold splineTangents
+    by_cases h : i + 2 < y.length
+    · obtain ⟨cs, hcs, hl⟩ := ih (i + 1) (by omega)
+      simp only [h, if_true, idx_eq_ok_of_lt y i (by omega), idx_eq_ok_of_lt y (i + 1) (by omega), idx_eq_ok_of_lt y (i + 2) h,
+        hcs, bind, Except.bind, pure, Except.pure]
+      exact ⟨_, rfl, by simp only [List.length_cons, hl]; omega⟩
+    · simp only [h, if_false]
+      exact ⟨[], rfl, by simp only [List.length_nil]; omega⟩
+
+/-- the second loop of `set_points`: one row for each point but the last -/
+theorem splineRows_ok (y cs : List R) (hc : cs.length = y.length) (fuel i : Nat) (hf : y.length ≤ i + 1 + fuel) :
+    ∃ rows, splineRows y cs fuel i = .ok rows ∧ rows.length = y.length - 1 - i := by
+  induction fuel generalizing i with
+  | zero => exact ⟨[], rfl, by simp only [List.length_nil]; omega⟩
+  | succ fuel ih =>
+    unfold splineRows
+    by_cases h : i + 1 < y.length
+    · obtain ⟨rows, hrows, hl⟩ := ih (i + 1) (by omega)
+      simp only [h, if_true, idx_eq_ok_of_lt cs i (by omega), idx_eq_ok_of_lt cs (i + 1) (by omega), idx_eq_ok_of_lt y i (by omega),
+        idx_eq_ok_of_lt y (i + 1) h, hrows, bind, Except.bind, pure, Except.pure]
+      exact ⟨_, rfl, by simp only [List.length_cons, hl]; omega⟩
+    · simp only [h, if_false]
+      exact ⟨[], rfl, by simp only [List.length_nil]; omega⟩
+
+/-- `interpolation::set_points` on at least two values builds one coefficient row per value -/
+theorem splineSetPoints_ok (y : List R) (hn : 2 ≤ y.length) :
+    ∃ rows, splineSetPoints y = .ok rows ∧ rows.length = y.length := by
+  obtain ⟨inner, hinner, hil⟩ := splineTangents_ok y (y.length + 1) 0 (by omega)
+  have hcl : ((0 : R) :: inner ++ [y[y.length - 1]'(by omega) - y[y.length - 2]'(by omega)]).length = y.length := by
+    simp only [List.cons_append, List.length_cons, List.length_append, List.length_nil, hil]; omega
+  obtain ⟨rows, hrows, hrl⟩ := splineRows_ok y _ hcl (y.length + 1) 0 (by omega)
+  unfold splineSetPoints
+  have hlt : ¬ y.length < 2 := by omega
+  simp only [hlt, if_false, hinner, idx_eq_ok_of_lt y (y.length - 1) (by omega), idx_eq_ok_of_lt y (y.length - 2) (by omega),
+    hrows, idx_eq_ok_of_lt _ (y.length - 1) (by rw [hcl]; omega), bind, Except.bind, pure, Except.pure]
+  exact ⟨_, rfl, by simp only [List.length_append, List.length_cons, List.length_nil, hrl]; omega⟩
+
+theorem natTrunc_le (x : R) (fuel k : Nat) : natTrunc x fuel k ≤ k + fuel := by
+  induction fuel generalizing k with
+  | zero => simp [natTrunc]
+  | succ fuel ih =>
+    unfold natTrunc
+    split
+    · have := ih (k + 1); omega
+    · omega
+
+/-- `interpolation::operator()`: on a non-empty table every branch indexes in range; the remaining case — the argument compares neither
+way with `0` / `n−1`, a NaN — does not exist over a scalar type whose comparisons are total -/
+theorem splineEval_noInt (hcmp : CmpTotal R) (rows : List (SplineRow R)) (hn : 0 < rows.length) (x : R) : NoInt (splineEval rows x) := by
+  unfold splineEval
+  extract_lets n
+  split
+  · refine NoInt.bind (idx_noInt _ _ ?_) (fun r _ => NoInt.pure _)
+    have := natTrunc_le x (n - 1) 0
+    omega
+  · rename_i hin
+    split
+    · exact NoInt.bind (idx_noInt _ _ hn) (fun r _ => NoInt.pure _)
+    · rename_i hneg
+      split
+      · exact NoInt.bind (idx_noInt _ _ (by omega)) (fun r _ => NoInt.pure _)
+      · rename_i hgt
+        exfalso
+        rcases (hcmp x 0).1 with h0 | h0
+        · exact hneg h0
+        · rcases (hcmp x (Scalar.nat (n - 1))).2 with h1 | h1
+          · exact hin ⟨h0, h1⟩
+          · exact hgt h1
+
+/-- the profile never indexes out of range: without the spline nothing is indexed; with it the table has `2·(spline_n_points+1) ≥ 2`
+rows and is evaluated by `splineEval_noInt` (no NaN) -/
+theorem MassConserving.profile_noInt (m : MassConserving R) (hs : m.applySpline = true → CmpTotal R) (a b c d e f g : R) :
     NoInt (m.profile a b c d e f g) := by
   unfold MassConserving.profile
-  simp only [hs, Bool.false_eq_true, if_false]
-  exact NoInt.pure _
+  extract_lets nd iv samples idxd
+  split
+  · rename_i hon
+    have hsl : 2 ≤ (samples ++ [(0.0 : R)]).length := by
+      simp only [samples, List.length_append, splineSamples_length, List.length_cons, List.length_nil]; omega
+    obtain ⟨rows, hrows, hrl⟩ := splineSetPoints_ok _ hsl
+    rw [hrows]
+    exact splineEval_noInt (hs hon) rows (by omega) _
+  · exact NoInt.pure _
 
 theorem MassConserving.get_noInt (m : MassConserving R) (hw : m.WellFormed) (ctx : Ctx R) (depth g : R) (pd : PlaneDist R)
     (ap : AdditionalParams R) (old : R) : NoInt (m.get ctx depth g pd ap old) := by
